@@ -30,7 +30,7 @@ RULE = ("cases = (operator, left operand, right operand) cells; matrix: exhausti
         "operand source) text; non-trivial = the two operands differ in level/kind or exceed 2^53 in magnitude or are "
         "non-finite, or (sort) the multiset has at least two elements")
 ASSUMPTIONS = ["Fraction(float) is the exact value of a double; Python str order is code-point order = UTF-8 byte order",
-               "NaN cells: == < <= > >= may only be false or raise, != only true or raise; other operators are not judged",
+               "NaN cells: == < <= > >= may only be false or raise, != only true or raise; min/max must raise where the interpreter's own <=> of the same operands raises; other operators are not judged",
                "complex numbers: == judged exactly on (re, im); ordering may raise or must follow the (re, im) pair order",
                "ties: min/max/sort may return any of several equal (==) elements; stability is not required",
                "== / != between different kinds are not judged (only the ordering operators must raise)"]
